@@ -86,7 +86,7 @@ Proof.
   { unfold rt_pinv in *. eapply Forall_impl; [|exact P]. intros n. apply rt_node_from_mono. exact Sub. }
   clear P. set (E' := E ++ [ev]) in *.
   assert (Last : In ev E') by (apply in_or_app; right; left; reflexivity).
-  destruct ev as [dt|s m b cfg r| |s m|s m|s m tok|s reason|]; cbn [rt_step].
+  destruct ev as [dt|s m b cfg r| |s m|s m|s m tok|s reason|tmo|]; cbn [rt_step].
   - cbn. split; [exact P'|constructor].
   - unfold rt_send. cbn [fst snd]. split.
     + apply rt_enqueue_pinv; [exact P'|]. exists cfg, r. cbn [qn_sess qn_mid qn_bytes qn_timeout qn_max]. auto.
@@ -138,6 +138,16 @@ Proof.
       { unfold rt_pinv in P'. rewrite Forall_forall in P'. apply P'.
         eapply Permutation_in; [apply Permutation_sym; exact Pm|]. apply in_or_app. left. exact Iy. }
       destruct Hy as (cfg & r & I2 & A & B). cbn. exists (qn_bytes y), cfg, r. auto.
+  - unfold rt_io_process, rt_fire_all.
+    destruct (rt_fire_pinv E' (rt_budget (rs_q st)) st P') as [P1 O1].
+    destruct (rt_fire (rt_budget (rs_q st)) st) as [st1 o1]. cbn [fst snd] in *.
+    destruct (rt_wait st1) as [w hd]. set (et := rt_epoll_timeout w tmo).
+    set (st2 := rt_mk_state _ (rs_base st1) (rs_q st1) (rs_uid st1)).
+    assert (P2 : rt_pinv E' st2) by exact P1.
+    destruct (rt_fire_pinv E' (rt_budget (rs_q st2)) st2 P2) as [P3 O3].
+    destruct (rt_fire (rt_budget (rs_q st2)) st2) as [st3 o3]. cbn [fst snd] in *.
+    split; [exact P3|]. apply Forall_app. split; [exact O1|]. constructor; [exact I|].
+    apply Forall_app. split; [exact O3|repeat constructor].
   - cbn. split; [exact P'|repeat constructor].
 Qed.
 
